@@ -11,7 +11,8 @@ S = adapters.load_model_stack()
 SH = xload.load_real('fedjax/datasets/shakespeare.py', 'sh_sym', {'numpy': np_lite},
                      attr_overrides={('fedjax.core', 'client_datasets'): S['cd'], ('fedjax.core', 'federated_data'): S['fd']})
 VOCAB = b'dhlptx@DHLPTX $(,048cgkoswCGKOSW[_#\'/37;?bfjnrvzBFJNRVZ"&*.26:\naeimquyAEIMQUY]!%)-159\r'
-BYTES = [ord('a'), ord('d'), ord('\r'), 9, ord('~'), 200]      # in-vocabulary (first/last vocab entries included) and out-of-vocabulary bytes
+BYTES = [ord('a'), ord('d'), ord('\r'), 2, ord('~'), 3]      # in-vocabulary (first/last vocab entries included) and out-of-vocabulary bytes,
+# two of which (2, 3) coincide numerically with the EOS / first-character label ids
 
 
 def expected_label(b):
@@ -111,7 +112,7 @@ _NUM = [0]
 
 
 def _int_model(x, *a):
-  if isinstance(x, (bytes, str)):
+  if isinstance(x, (bytes, str)) and x in (b'0000', '0000'):       # the writer-number field of the id built below
     return _NUM[0]
   return int(x, *a)
 
@@ -119,11 +120,15 @@ def _int_model(x, *a):
 EM = xload.load_real('fedjax/datasets/emnist.py', 'em_sym', post=lambda m: setattr(m, 'int', _int_model))
 
 
-def domain(n: int, long_form: bool) -> bool:
+HASHES = [b'', b'0123456789abcdef:', b'a1f2300bcd45e678:', b'a1f9300bcd45e6f8:']     # short form; plain hash; hashes containing decoy "f<4 digits>" fields
+
+
+def domain(n: int, form: int) -> bool:
   """
   pre: 0 <= n <= 9999
+  pre: 0 <= form <= 3
   post: __return__
   """
   _NUM[0] = n
-  cid = (b'0123456789abcdef:' if long_form else b'') + b'f0000_00'
+  cid = HASHES[concrete(form, 0, 3)] + b'f0000_00'
   return EM.domain_id(cid) == (0 if 2100 <= n <= 2599 else 1)
